@@ -148,13 +148,16 @@ func walkBothValue(t *schema.Type, v reflect.Value, n *wire.Node, msg []byte, pa
 			return
 		}
 		byKey := map[string]reflect.Value{}
+		dup := map[string]int{}
 		it := v.MapRange()
 		for it.Next() {
-			byKey[string(ref.ValueBytes(t.Key, it.Key()))] = it.Value()
+			kb := string(ref.ValueBytes(t.Key, it.Key()))
+			byKey[kb] = it.Value()
+			dup[kb]++ // NaN keys: several entries with the same key bytes cannot be told apart
 		}
 		for i := 0; i+1 < len(n.Elems); i += 2 {
 			k := n.Elems[i]
-			if mv, ok := byKey[string(msg[k.Start:k.End])]; ok {
+			if mv, ok := byKey[string(msg[k.Start:k.End])]; ok && dup[string(msg[k.Start:k.End])] == 1 {
 				walkBothValue(t.Elem, mv, n.Elems[i+1], msg, fmt.Sprintf("%s{%x}", path, msg[k.Start:k.End]), fn)
 			}
 		}
